@@ -61,6 +61,7 @@ def replay_cases(binp, cases, rep, tag):
     # violation only if the ideal relation of C15 fails on what was actually observed.  All
     # mismatching transitions are judged in one ideal trace (a "state" event starts each).
     pending = []
+    nviol = 0
     for m in lines[:-1]:
         obs = m.get("observed", {})
         if m["mismatch"].startswith("panic") or "before" not in obs or "after" not in obs:
@@ -82,6 +83,10 @@ def replay_cases(binp, cases, rep, tag):
         m = pending[k]
         rep.violation(sig_of(m), m["mismatch"], {"kind": "transition", "case": m["case"], "triple": m["triple"]})
         pending = pending[k + 1:]
+        nviol += 1
+        if nviol >= 6:          # enough to report; every further rejection costs a TLC run
+            print(f"note: {len(pending)} further mismatching transitions are not judged after {nviol} violations", flush=True)
+            break
     return lines[-1]["summary"]
 
 
@@ -196,6 +201,7 @@ def run(tier, selftest):
     with open(tpx) as f:
         xev = [json.loads(l) for l in f if l.strip()]
     nx = sum(1 for e in xev if e["ev"] == "load")
+    nxv = 0
     while xev:
         ok, irej = ideal_accepts(xev)
         if ok:
@@ -208,6 +214,9 @@ def run(tier, selftest):
                       f"history on a module with singletons / IF_DATA / USER_RIGHTS violates C15 (Trace_PlacementIdeal rejects event {d}: {json.dumps({k: bad[k] for k in bad if k != 'lists'})[:300]})",
                       {"kind": "history", "events": xev[start:end]})
         xev = xev[end:]
+        nxv += 1
+        if nxv >= 6:
+            break
 
     binding = None
     if selftest or thorough:
